@@ -14,7 +14,7 @@ import (
 
 // D2 for the matcher families: random large tables on real routers, lookups recorded and validated by Obs_Match.
 
-var bigSegs = []string{"a", "b", "ab", "abc", "a:b", "k=v", "v1.2", "x-y", "42", "a%2Fb", "é", "日本", "{x}", "{y}", "{id}", "a{x}", "v{y}", "{x}", "*{w}", "*{rest}", "f=*{w}", "a.b"}
+var bigSegs = []string{"a", "b", "ab", "abc", "a:b", "k=v", "v1.2", "x-y", "42", "a%2Fb", "é", "日本", "{x}", "{y}", "{id}", "a{x}", "v{y}", "{x}", "*{w}", "*{rest}", "f=*{w}", "a.b", "$meta", "!x", "%41", "~u", "|p", "(1)"}
 var bigLabels = []string{"a", "b", "ab", "api", "{h}", "a{h}", "{g}", "x-{g}"}
 
 func bigPattern(rng *rand.Rand, host bool, maxSegs int) string {
